@@ -55,7 +55,8 @@ def required(tier):
     cl += ['phase:same-session-evicted', 'phase:reopen-read', 'phase:reopen-append',
            'phase:after-sync', 'across:subset-later', 'across:uniform', 'across:any-of-union', 'phase:append-one-more',
            'field-set-order:shuffled', 'field-set:defined-again-in-another-field-order',
-           'trajectory:without-points', 'combo:two-species-sets-in-two-files:cross-set-species']
+           'trajectory:without-points', 'combo:two-species-sets-in-two-files:cross-set-species',
+           'layout:associated-file-named-like-the-base-file']
     return {'classes': cl, 'counters': {'trajectories_compared': 300}, 'evaluations': 300}
 
 
@@ -227,6 +228,11 @@ def one_store(rng, workdir: Path, rec, k):
             kw = {}
             if layout == 'assoc1':
                 assoc_paths = [d / 'a1.nc']
+                if rng.random() < 0.3:
+                    # same file name as the base file, in a directory of its own
+                    (d / 'emissions').mkdir(exist_ok=True)
+                    assoc_paths = [d / 'emissions' / base.name]
+                    rec.cls('layout:associated-file-named-like-the-base-file')
                 kw['associated_files'] = [(assoc_paths[0], list(extras))]
             elif layout == 'assoc2':
                 if 'vx_allopt' in extras:          # the all-optional set in a file of its own
@@ -248,7 +254,13 @@ def one_store(rng, workdir: Path, rec, k):
                     raise M('save() raised on data that fit the field sets',
                             {'error': f'{type(e).__name__}: {str(e)[:200]}', **case})
             else:
-                st = TrajectoryStore.create(base_file=base, cache_size_mb=cache_mb, **kw)
+                try:
+                    st = TrajectoryStore.create(base_file=base, cache_size_mb=cache_mb, **kw)
+                except Exception as e:  # noqa: BLE001
+                    raise M('creating a store for a valid file layout raised',
+                            {'error': f'{type(e).__name__}: {str(e)[:200]}',
+                             'files': [str(base.relative_to(d))]
+                             + [str(x.relative_to(d)) for x in assoc_paths], **case})
                 add_all(st)
             try:
                 compare_all(st, 'same-session')
